@@ -400,7 +400,9 @@ def finish(ctx, level, rule, assumptions, extra=None, exhaustive=False):
         "violations": len(seen),
     }
     os.makedirs(EVID, exist_ok=True)
-    with open(os.path.join(EVID, ctx.pid + ".json"), "w") as f:
+    # a replay of one recorded scenario must not replace the evidence of the last full run
+    name = ctx.pid + (".replay.json" if getattr(ctx, "is_replay", False) else ".json")
+    with open(os.path.join(EVID, name), "w") as f:
         json.dump(ev, f, indent=1, default=str)
     print("%s %s tier=%s seed=%d: states=%d traces=%d events=%d evaluations=%d known=%d violations=%d wall=%.1fs" % (
         "FAIL" if seen else "PASS", ctx.pid, ctx.tier, ctx.seed, max(ctx.states, 0), ctx.traces, ctx.events,
